@@ -1,5 +1,6 @@
 import HapVerif.Model.C07
 import HapVerif.Model.C07Ids
+import HapVerif.Model.C07Files
 import HapVerif.Drv.Common
 import HapVerif.Drv.C18
 namespace HapVerif.C07
@@ -23,7 +24,12 @@ def parseSidEp (s : String) : Option Ids.Ep :=
 /-- `sid <mode> <ep,ep,…>` (server ids of assign-backend-server-id; endpoints in the order of the backend);
 impl output: the PUID of every endpoint in that order, `,` separated.
 `hist <ops…>` / `world <ops…>`; impl output: `ok` or problems joined by `,`.
-`ids <link,link,…>`; impl output: the ids the real AddBackendPath handed out, `link=NN,…` -/
+`ids <link,link,…>`; impl output: the ids the real AddBackendPath handed out, `link=NN,…`
+`cafile <present> <ref>` (CA bundle read from files, Model/C07Files): `<present>` = the files that exist,
+`+` separated (`-` none), `<ref>` = the annotation value (`_` = empty); impl output of the real
+GetCASecretPath: `<ca>|<crl>|<error class>` (`-` = empty / nil).
+`cafiles <present> <ops…>`: a world history whose ingresses / services carry such references; impl output as
+for `hist`; a file named by the configuration that does not exist is `config-names-missing-file`. -/
 def handle (args : List String) (impl : String) : Verdict :=
   match args with
   | "alloc" :: _ => HapVerif.C18.handle args impl   -- auth-proxy port allocator (model + Spec shared with C18)
@@ -40,6 +46,16 @@ def handle (args : List String) (impl : String) : Verdict :=
       | none => { model := txt, agree := false,
                   oracle := some (if impl = "PANIC" then "panic-sid" else "sid-output-" ++ impl), trivial := triv }
     | none => bad "parse"
+  | "cafile" :: present :: [ref] =>
+    let pres := if present = "-" then [] else present.splitOn "+"
+    let ex := Files.exOf pres
+    let rtxt := if ref = "_" then "" else ref
+    let txt := Files.render (Files.resolve ex rtxt)
+    let triv := (Files.contentProtocol rtxt).1 ≠ "file"
+    match impl.splitOn "|" with
+    | [ca, crl, err] => { model := txt, agree := txt = impl, oracle := Files.oracle ex ca crl err, trivial := triv }
+    | _ => { model := txt, agree := false,
+             oracle := some (if impl = "PANIC" then "panic-cafile" else "cafile-output"), trivial := triv }
   | "ids" :: [links] =>
     match parseList (fun s => some s) links with
     | some ls =>
@@ -51,7 +67,14 @@ def handle (args : List String) (impl : String) : Verdict :=
         trivial := ls.length < 2 }
     | none => bad "parse"
   | kind :: ops =>
-    if kind = "hist" ∨ kind = "world" then
+    if kind = "cafiles" then
+      let probs := if impl = "ok" then [] else impl.splitOn ","
+      -- Props/C07Files.written_files_exist: whatever the references and the files present, no named file is missing
+      let orc := if impl.startsWith "skip" then none
+                 else if probs.any (fun p => problemClass p = "missing-file") then some "config-names-missing-file"
+                 else oracle probs
+      { model := "ok", agree := impl = "ok" ∨ impl.startsWith "skip", oracle := orc, trivial := ops.length < 4 }
+    else if kind = "hist" ∨ kind = "world" then
       let probs := if impl = "ok" then [] else impl.splitOn ","
       -- the model's claim (theorems of Props/C07*.lean + the sync model): no problem, ever
       { model := "ok", agree := impl = "ok" ∨ impl.startsWith "skip", oracle := if impl.startsWith "skip" then none else oracle probs,
